@@ -16,6 +16,7 @@ import (
 	"github.com/ipld/go-car/v2/blockstore"
 	"github.com/ipld/go-car/v2/storage"
 	"github.com/ipld/go-car/v2/storage/deferred"
+	mh "github.com/multiformats/go-multihash"
 )
 
 type histOp struct {
@@ -49,6 +50,7 @@ func raceLogSize() int64 {
 
 func famC08(g *Gen, o *Out, n int, thorough bool) {
 	ctx := context.Background()
+	bigBatchVsFinalizeReadOnly(g, o, 8)
 	for c := 0; c < n; c++ {
 		api := []string{"bs", "st", "def"}[g.pick(3)]
 		wo := g.wOpts()
@@ -422,3 +424,81 @@ func sameCids(a, b []cid.Cid) bool {
 }
 
 func isIdentityCid(c cid.Cid) bool { return c.Prefix().MhType == 0 }
+
+// bigBatchVsFinalizeReadOnly: ONE long-running call against a call that changes the typestate. A PutMany
+// of several hundred blocks races FinalizeReadOnly (which does not close the store): whichever wins the
+// lock, the file after the closing Finalize must decode, and a PutMany that reported success must have
+// every one of its blocks in it. A method that lets go of the lock in the middle of its batch fails here.
+func bigBatchVsFinalizeReadOnly(g *Gen, o *Out, trials int) {
+	ctx := context.Background()
+	for t := 0; t < trials; t++ {
+		wo := g.wOpts()
+		wo.mcs, wo.dup, wo.v1, wo.whole = 2048, false, false, false
+		root := g.Block()
+		p := tmpPath(fmt.Sprintf("c08-batch-%d.car", t))
+		os.Remove(p)
+		rw, err := blockstore.OpenReadWrite(p, []cid.Cid{root.C}, wo.opts()...)
+		if err != nil {
+			continue
+		}
+		var batch []blocks.Block
+		want := map[string]bool{}
+		for i := 0; i < 300+g.pick(700); i++ {
+			d := append(g.bytes(8), byte(i), byte(i>>8))
+			h, _ := mh.Sum(d, mh.SHA2_256, -1)
+			bc := cid.NewCidV1(cid.Raw, h)
+			blk, _ := blocks.NewBlockWithCid(d, bc)
+			batch = append(batch, blk)
+			want[string(bc.Hash())] = true
+		}
+		var perr error
+		var wg sync.WaitGroup
+		start := make(chan struct{})
+		wg.Add(2)
+		go func() { defer wg.Done(); <-start; perr = rw.PutMany(ctx, batch) }()
+		delay := time.Duration(t*40) * time.Microsecond
+		go func() { defer wg.Done(); <-start; time.Sleep(delay); rw.FinalizeReadOnly() }()
+		close(start)
+		done := make(chan struct{})
+		go func() { wg.Wait(); close(done) }()
+		deadlock := 0
+		select {
+		case <-done:
+		case <-time.After(60 * time.Second):
+			deadlock = 1
+		}
+		final := 1
+		if deadlock == 0 {
+			rw.Finalize()
+			file, _ := os.ReadFile(p)
+			got := map[string]bool{}
+			br, err := carv2.NewBlockReader(bytes.NewReader(file))
+			if err != nil {
+				final = 0
+			} else {
+				for {
+					blk, err := br.Next()
+					if err != nil {
+						if err.Error() != "EOF" {
+							final = 0
+						}
+						break
+					}
+					got[string(blk.Cid().Hash())] = true
+				}
+			}
+			if perr == nil {
+				for k := range want {
+					if !got[k] {
+						final = 0
+						break
+					}
+				}
+			}
+		}
+		o.Line(fmt.Sprintf("conc api=bs %s goroutines=2 ops=1 batch=%d", wo, len(batch)),
+			fmt.Sprintf("race=0 panic=0 deadlock=%d rt=1 final=%d _putmany=%d", deadlock, final, b2i(perr == nil)))
+		o.Count("batch-vs-finalize-readonly")
+		os.Remove(p)
+	}
+}
